@@ -1,8 +1,10 @@
+import CwPlus.Lemmas.Cw3FlexNodup
 import CwPlus.Lemmas.Cw3Flex
 import CwPlus.Props.C03
 import CwPlus.Props.C15
 import CwPlus.Props.C05Flex
 import CwPlus.Lemmas.Cw3FlexAt
+import CwPlus.Props.C06Flex
 /-!
 # C03 (cw3-flex part) — the status reported for a proposal is the outcome implied by its ballots
 
@@ -55,6 +57,21 @@ theorem status_eq_outcome {ext : Ext} {fuel : Nat} {w : World} (hr : Reachable e
     rw [tally_eq_ballotTally hr hp ho]
   · simp only [ho, if_false, Proposal.currentStatus]
     exact cs_of_ne_open (t := p.tally) ho
+
+/-- **C03 for the list queries** (`ListProposals`, `ReverseProposals`), cw3-flex: in every reachable world, whenever a
+listing answers, every listed entry is a stored proposal under its id and the status listed for it is the `Outcome` of
+its recorded ballots at the query block if it is stored Open, and the stored status otherwise — the same as the point
+query reports (`status_eq_outcome`). -/
+theorem listed_status_eq_outcome {ext : Ext} {fuel : Nat} {w : World} (hr : Reachable ext fuel w) (blk : Block)
+    (cur limit : Option Nat) {vs : List ProposalView}
+    (h : Cw3Flex.listProposals w.flex blk cur limit = .ok vs ∨ Cw3Flex.reverseProposals w.flex blk cur limit = .ok vs) :
+    ∀ v ∈ vs, ∃ p, w.flex.core.proposals.get? v.id = some p ∧
+      (Except.ok v.status : Res Status) =
+        if p.status = .open then Outcome p (ballotsOf w.flex.core v.id) blk else .ok p.status := by
+  intro v hv
+  obtain ⟨p, hp, hst⟩ := listings_status_core (Cw3Flex.reachable_nodup hr) blk cur limit h v hv
+  refine ⟨p, hp, ?_⟩
+  rw [← status_eq_outcome hr hp blk, query_status _ _ _ _ hp, hst]
 
 /-- **Execute is admitted iff Passed** (and the sender is authorised): in a reachable world Execute succeeds exactly
 when the proposal is stored Passed, or stored Open with `Outcome` of its recorded ballots = Passed at the call's
@@ -216,6 +233,194 @@ theorem rejected_when_stored {s s' : State} {g : Cw4Group.State} {self : Addr} {
   have hst := propStep_stores_rejected (coreStep_prop hi.wf (execute_coreStep h) hp') hs hnew
   exact rejected_hopeless (t := openT p') rfl hprem hst
 
+/-! ## the premise discharged from the history: the `…_reachable` corollaries
+
+`C06Flex.ReachableSnap` = histories with non-decreasing blocks on a cw4-group that satisfies the cw4-group invariant
+(C09).  `CleanStart w.log id p.startHeight` = in the ghost log no group write in the proposal's own block precedes its
+`Propose` — the exact complement of the known same-block finding (D3).  Under that guard the premise of C04 holds for
+the recorded ballots of the proposal in every such world, so the meaning theorems above hold WITHOUT `hprem`. -/
+
+open CwPlus.Props.C06Flex in
+/-- **The premise of C04 holds in every reachable world, outside the same-block finding.**  Recorded ballots ≤ recorded
+total (`C06Flex.flex_sum_ballots_le_total`), recorded total in `u64`, and the proposal's threshold — which is the
+configured one (`Inv'.propThr`) — passes `Threshold::validate` for the recorded total: for `AbsoluteCount k` because
+`Propose` stored a status, so either `total - k` did not underflow or the proposer's own ballot weighs `k ≤ total`. -/
+theorem premise_reachable {ext : Ext} {fuel : Nat} {w : World} {b : Block} (hr : ReachableSnap ext fuel w b) {id : Nat}
+    {p : Proposal} (hp : w.flex.core.proposals.get? id = some p) (hc : CleanStart w.log id p.startHeight) :
+    C04.Premise (ballotTally p (ballotsOf w.flex.core id)) ∧ p.threshold = w.flex.cfg.threshold := by
+  have hq := hr.totalInv
+  obtain ⟨hle, hu, _⟩ := flex_sum_ballots_le_total hr hp hc
+  have hthr := hq.inv'.propThr id p hp
+  refine ⟨⟨?_, hu, ?_⟩, hthr⟩
+  · show C04.cast (tallyOf (ballotsOf w.flex.core id)) ≤ p.totalWeight
+    rw [weightSum_eq] at hle; exact hle
+  · show p.threshold.validate p.totalWeight = .ok ()
+    obtain ⟨t0, hv⟩ := hq.inv'.cfgValid
+    rw [← hthr] at hv
+    refine validate_of_validate hv ?_
+    intro k hk
+    rcases hq.inv'.countOk id p k hp hk with h | ⟨bl, hb, h⟩
+    · exact h
+    · have := weight_le_weightSum hb; omega
+
+open CwPlus.Props.C06Flex in
+/-- **Status = the exact documented rule, no premise** (`status_eq_exact_outcome` with `hprem` discharged): on every
+history with non-decreasing blocks, for every proposal stored Open whose `Propose` was not preceded by a group write in
+its own block, with a threshold of at most 9 decimals, at every query block. -/
+theorem status_eq_exact_outcome_reachable {ext : Ext} {fuel : Nat} {w : World} {b : Block} (hr : ReachableSnap ext fuel w b)
+    {id : Nat} {p : Proposal} (hp : w.flex.core.proposals.get? id = some p) (ho : p.status = .open)
+    (hc : CleanStart w.log id p.startHeight) (h9 : C04.nineDecimals p.threshold) (blk : Block) :
+    ∃ st, (Cw3Flex.queryProposal w.flex blk id).map (·.status) = .ok st ∧
+      (st = .passed ↔ 0 < sumK .yes (ballotsOf w.flex.core id) ∧
+        CertainBy C04.exactPasses p.threshold p.totalWeight (tallyOf (ballotsOf w.flex.core id)) (p.expires.isExpired blk)) ∧
+      (st = .rejected →
+        HopelessBy C04.exactPasses p.threshold p.totalWeight (tallyOf (ballotsOf w.flex.core id)) (p.expires.isExpired blk)) ∧
+      (st = .open → p.expires.isExpired blk = false) ∧
+      (st = .open ∨ st = .passed ∨ st = .rejected) :=
+  status_eq_exact_outcome hr.reachableAt.reachable hp ho (premise_reachable hr hp hc).1 h9 blk
+
+open CwPlus.Props.C06Flex in
+/-- … and for thresholds with up to 18 digits (`status_exact_outcome_within_one` with `hprem` discharged). -/
+theorem status_exact_outcome_within_one_reachable {ext : Ext} {fuel : Nat} {w : World} {b : Block}
+    (hr : ReachableSnap ext fuel w b) {id : Nat} {p : Proposal} (hp : w.flex.core.proposals.get? id = some p)
+    (ho : p.status = .open) (hc : CleanStart w.log id p.startHeight) (blk : Block) :
+    ∃ st, (Cw3Flex.queryProposal w.flex blk id).map (·.status) = .ok st ∧
+      (CertainBy C04.exactPasses p.threshold p.totalWeight (tallyOf (ballotsOf w.flex.core id)) (p.expires.isExpired blk) →
+        st = .passed) ∧
+      (st = .passed → 0 < sumK .yes (ballotsOf w.flex.core id) ∧
+        CertainBy C04.laxPasses p.threshold p.totalWeight (tallyOf (ballotsOf w.flex.core id)) (p.expires.isExpired blk)) ∧
+      (st = .rejected →
+        HopelessBy C04.exactPasses p.threshold p.totalWeight (tallyOf (ballotsOf w.flex.core id)) (p.expires.isExpired blk)) ∧
+      (st = .open → p.expires.isExpired blk = false) ∧
+      (st = .open ∨ st = .passed ∨ st = .rejected) :=
+  status_exact_outcome_within_one hr.reachableAt.reachable hp ho (premise_reachable hr hp hc).1 blk
+
+open CwPlus.Props.C06Flex in
+/-- **A stored Passed is justified, no premise** (`passed_justified` with `hprem` discharged; the unguarded statement is
+false: `passed_justified_counterexample`). -/
+theorem passed_justified_reachable {ext : Ext} {fuel : Nat} {w : World} {b : Block} (hr : ReachableSnap ext fuel w b)
+    {id : Nat} {p : Proposal} (hp : w.flex.core.proposals.get? id = some p) (hs : p.status = .passed)
+    (hc : CleanStart w.log id p.startHeight) {b' : Block} (hb : C04.later b b') :
+    Outcome p (ballotsOf w.flex.core id) b' = .ok .passed :=
+  passed_justified hr.reachableAt hp hs (premise_reachable hr hp hc).1 hb
+
+open CwPlus.Props.C06Flex in
+/-- **A stored Rejected is justified, no premise** (`rejected_justified` with `hprem` discharged). -/
+theorem rejected_justified_reachable {ext : Ext} {fuel : Nat} {w : World} {b : Block} (hr : ReachableSnap ext fuel w b)
+    {id : Nat} {p : Proposal} (hp : w.flex.core.proposals.get? id = some p) (hs : p.status = .rejected)
+    (hc : CleanStart w.log id p.startHeight) {b' : Block} (hb : C04.later b b') :
+    Outcome p (ballotsOf w.flex.core id) b' = .ok .rejected ∧
+    HopelessBy C04.libPasses p.threshold p.totalWeight (tallyOf (ballotsOf w.flex.core id)) (p.expires.isExpired b') ∧
+    HopelessBy C04.exactPasses p.threshold p.totalWeight (tallyOf (ballotsOf w.flex.core id)) (p.expires.isExpired b') :=
+  rejected_justified hr.reachableAt hp hs (premise_reachable hr hp hc).1 hb
+
+open CwPlus.Props.C06Flex in
+/-- **Executable ⇒ the recorded ballots imply Passed, no premise** (`executable_implies_outcome_passed` with `hprem`
+discharged): no proposal created outside the same-block situation becomes executable with a Yes share below its
+threshold. -/
+theorem executable_implies_outcome_passed_reachable {ext : Ext} {fuel : Nat} {w : World} {b : Block}
+    (hr : ReachableSnap ext fuel w b) {b' : Block} (hb : C04.later b b') {g : Cw4Group.State} {self snd : Addr}
+    {funds : List Coin} {id : Nat}
+    (hc : ∀ p, w.flex.core.proposals.get? id = some p → CleanStart w.log id p.startHeight)
+    (h : (Cw3Flex.execute w.flex g self b' snd funds (.execute id)).isOk = true) :
+    ∃ p, w.flex.core.proposals.get? id = some p ∧ Outcome p (ballotsOf w.flex.core id) b' = .ok .passed :=
+  executable_implies_outcome_passed hr.reachableAt hb (fun p hp => (premise_reachable hr hp (hc p hp)).1) h
+
+/-! ## Execute succeeds ⇒ the Yes share meets the threshold in exact arithmetic -/
+
+/-- **"Never executable with a Yes share below its threshold", exact arithmetic, inside the premise** (clause g):
+whenever Execute succeeds at or after the block of the last transaction, the recorded Yes weight is positive and the
+configured rule holds for the recorded ballots in exact cross-multiplied arithmetic (every completion before expiry,
+the recorded ballots after) — exactly for thresholds with at most 9 decimals, within one vote for 18-digit decimals. -/
+theorem execute_ok_implies_exact_threshold {ext : Ext} {fuel : Nat} {w : World} {b : Block} (hr : ReachableAt ext fuel w b)
+    {b' : Block} (hb : C04.later b b') {g : Cw4Group.State} {self snd : Addr} {funds : List Coin} {id : Nat}
+    (hprem : ∀ p, w.flex.core.proposals.get? id = some p → C04.Premise (ballotTally p (ballotsOf w.flex.core id)))
+    (h : (Cw3Flex.execute w.flex g self b' snd funds (.execute id)).isOk = true) :
+    ∃ p, w.flex.core.proposals.get? id = some p ∧ 0 < sumK .yes (ballotsOf w.flex.core id) ∧
+      CertainBy C04.laxPasses p.threshold p.totalWeight (tallyOf (ballotsOf w.flex.core id)) (p.expires.isExpired b') ∧
+      (C04.nineDecimals p.threshold →
+        CertainBy C04.exactPasses p.threshold p.totalWeight (tallyOf (ballotsOf w.flex.core id)) (p.expires.isExpired b')) := by
+  obtain ⟨p, hp, hout⟩ := executable_implies_outcome_passed hr hb hprem h
+  exact ⟨p, hp, outcome_passed_exact (hprem p hp) hout⟩
+
+open CwPlus.Props.C06Flex in
+/-- **… with the premise discharged from the history**: on every `ReachableSnap` history, for a proposal whose `Propose`
+was not preceded by a group write in its own block.  (Without the guard false: `passed_justified_counterexample`.) -/
+theorem execute_ok_implies_exact_threshold_reachable {ext : Ext} {fuel : Nat} {w : World} {b : Block}
+    (hr : ReachableSnap ext fuel w b) {b' : Block} (hb : C04.later b b') {g : Cw4Group.State} {self snd : Addr}
+    {funds : List Coin} {id : Nat}
+    (hc : ∀ p, w.flex.core.proposals.get? id = some p → CleanStart w.log id p.startHeight)
+    (h : (Cw3Flex.execute w.flex g self b' snd funds (.execute id)).isOk = true) :
+    ∃ p, w.flex.core.proposals.get? id = some p ∧ 0 < sumK .yes (ballotsOf w.flex.core id) ∧
+      CertainBy C04.laxPasses p.threshold p.totalWeight (tallyOf (ballotsOf w.flex.core id)) (p.expires.isExpired b') ∧
+      (C04.nineDecimals p.threshold →
+        CertainBy C04.exactPasses p.threshold p.totalWeight (tallyOf (ballotsOf w.flex.core id)) (p.expires.isExpired b')) :=
+  execute_ok_implies_exact_threshold hr.reachableAt hb (fun p hp => (premise_reachable hr hp (hc p hp)).1) h
+
+open CwPlus.Props.C06Flex in
+/-- A stored Passed read in exact arithmetic, premise discharged (`passed_justified_reachable` × C04). -/
+theorem passed_justified_exact_reachable {ext : Ext} {fuel : Nat} {w : World} {b : Block} (hr : ReachableSnap ext fuel w b)
+    {id : Nat} {p : Proposal} (hp : w.flex.core.proposals.get? id = some p) (hs : p.status = .passed)
+    (hc : CleanStart w.log id p.startHeight) {b' : Block} (hb : C04.later b b') :
+    0 < sumK .yes (ballotsOf w.flex.core id) ∧
+    CertainBy C04.laxPasses p.threshold p.totalWeight (tallyOf (ballotsOf w.flex.core id)) (p.expires.isExpired b') ∧
+    (C04.nineDecimals p.threshold →
+      CertainBy C04.exactPasses p.threshold p.totalWeight (tallyOf (ballotsOf w.flex.core id)) (p.expires.isExpired b')) :=
+  outcome_passed_exact (premise_reachable hr hp hc).1 (passed_justified_reachable hr hp hs hc hb)
+
+/-! ## the admit-iff theorems for every state satisfying `Inv` (hence also mid-dispatch, for re-entrant self-calls) -/
+
+theorem tally_eq_ballotTally_inv {s : State} (hi : Inv s) {id : Nat} {p : Proposal}
+    (hp : s.core.proposals.get? id = some p) (ho : p.status = .open) :
+    p.tally = ballotTally p (ballotsOf s.core id) := by
+  have := hi.wf.tally id p hp
+  simp [Proposal.tally, ballotTally, ho, this]
+
+/-- **Execute is admitted iff Passed and authorised, for every state satisfying `Inv`** — in particular the
+intermediate states inside `dispatch` (`dispatch_inv` preserves `Inv`), so re-entrant `selfExecute` is covered. -/
+theorem execute_admits_iff_outcome_inv {s : State} (hi : Inv s) (g : Cw4Group.State)
+    (self : Addr) (blk : Block) (snd : Addr) (funds : List Coin) (id : Nat) :
+    (Cw3Flex.execute s g self blk snd funds (.execute id)).isOk = true ↔
+      ∃ p, s.core.proposals.get? id = some p ∧ authorize s.cfg g snd = true ∧
+        (p.status = .passed ∨ (p.status = .open ∧ Outcome p (ballotsOf s.core id) blk = .ok .passed)) := by
+  rw [CwPlus.Props.C05Flex.execute_ok_iff]
+  constructor
+  · rintro ⟨p, hp, hst, ha⟩
+    refine ⟨p, hp, ha, ?_⟩
+    by_cases ho : p.status = .open
+    · right; refine ⟨ho, ?_⟩
+      simp only [Outcome, ← tally_eq_ballotTally_inv hi hp ho]; exact hst
+    · left
+      have : Cw3.currentStatus p.tally blk = .ok p.status := cs_of_ne_open (t := p.tally) ho
+      simp only [Proposal.currentStatus] at hst
+      rw [this] at hst
+      exact (Except.ok.inj hst)
+  · rintro ⟨p, hp, ha, h | ⟨ho, h⟩⟩
+    · refine ⟨p, hp, ?_, ha⟩
+      have : Cw3.currentStatus p.tally blk = .ok p.status := cs_of_ne_open (t := p.tally) (by simp [Proposal.tally, h])
+      simp only [Proposal.currentStatus, this, h]
+    · refine ⟨p, hp, ?_, ha⟩
+      simp only [Outcome, ← tally_eq_ballotTally_inv hi hp ho] at h; exact h
+
+/-- **Close is admitted iff expired and not Passed, for every state satisfying `Inv`** (also mid-dispatch). -/
+theorem close_admits_iff_outcome_inv {s : State} (hi : Inv s) (g : Cw4Group.State)
+    (self : Addr) (blk : Block) (snd : Addr) (funds : List Coin) (id : Nat) :
+    (Cw3Flex.execute s g self blk snd funds (.close id)).isOk = true ↔
+      ∃ p, s.core.proposals.get? id = some p ∧ p.status = .open ∧ p.expires.isExpired blk = true ∧
+        Outcome p (ballotsOf s.core id) blk = .ok .rejected := by
+  rw [CwPlus.Props.C05Flex.close_ok_iff hi]
+  constructor
+  · rintro ⟨p, st, hp, ho, hst, hne, hexp⟩
+    refine ⟨p, hp, ho, hexp, ?_⟩
+    simp only [Outcome, ← tally_eq_ballotTally_inv hi hp ho]
+    have hst' : Cw3.currentStatus p.tally blk = .ok st := hst
+    rcases expired_status (t := p.tally) (by simp [Proposal.tally, ho]) (by simpa [Proposal.tally] using hexp) hst' with e | e
+    · exact absurd e hne
+    · subst e; exact hst'
+  · rintro ⟨p, hp, ho, hexp, hout⟩
+    refine ⟨p, .rejected, hp, ho, ?_, by simp, hexp⟩
+    simp only [Outcome, ← tally_eq_ballotTally_inv hi hp ho] at hout; exact hout
+
 /-! ## never executable without Yes weight (D1 fixed) -/
 
 /-- Invariant: every proposal stored Passed or Executed has positive Yes weight in its tally. -/
@@ -279,6 +484,18 @@ theorem never_executable_without_yes {ext : Ext} {fuel : Nat} {w : World} (hr : 
     (h : (Cw3Flex.execute w.flex g self blk snd funds (.execute id)).isOk = true) : 0 < sumK .yes (ballotsOf w.flex.core id) := by
   obtain ⟨hi, hy⟩ := reachable_yes hr
   obtain ⟨p, hp, hst, _⟩ := (CwPlus.Props.C05Flex.execute_ok_iff w.flex g self blk snd funds id).mp h
+  have := cs_passed_yes (t := p.tally) hst (Or.inl rfl) (fun h => hy id p hp h)
+  have ht := hi.wf.tally id p hp
+  simp only [Proposal.tally, ht, tallyOf] at this
+  exact this
+
+/-- **Never executable without Yes weight, for every state satisfying `YesInv`** (`yes_step`: every handler call
+preserves `YesInv`, so it holds mid-dispatch too). -/
+theorem never_executable_without_yes_inv {s : State} (hy : YesInv s) {g : Cw4Group.State}
+    {self : Addr} {blk : Block} {snd : Addr} {funds : List Coin} {id : Nat}
+    (h : (Cw3Flex.execute s g self blk snd funds (.execute id)).isOk = true) : 0 < sumK .yes (ballotsOf s.core id) := by
+  obtain ⟨hi, hy⟩ := hy
+  obtain ⟨p, hp, hst, _⟩ := (CwPlus.Props.C05Flex.execute_ok_iff s g self blk snd funds id).mp h
   have := cs_passed_yes (t := p.tally) hst (Or.inl rfl) (fun h => hy id p hp h)
   have ht := hi.wf.tally id p hp
   simp only [Proposal.tally, ht, tallyOf] at this
@@ -373,6 +590,57 @@ example :
     (Cw3Flex.execute w.flex w.group "ms" ⟨15, 0⟩ "x" [] (.close 2)).isOk = false := by
   decide
 
+/-! ### non-vacuity of the `…_reachable` corollaries -/
+
+theorem Ex.group0_inv : CwPlus.Props.C09.Inv Ex.group0 :=
+  CwPlus.Props.C09.instantiate_inv
+    (msg := ⟨some ⟨true, "adm"⟩, [(⟨true, "z"⟩, 0), (⟨true, "a"⟩, 2), (⟨true, "b"⟩, 3)]⟩) (h0 := 5) rfl
+
+theorem Ex.group0_logLe : Ex.group0.members.LogLe 5 ∧ Ex.group0.total.LogLe 5 := by
+  have h := CwPlus.Props.C09.instantiate_sameBlock
+    (msg := ⟨some ⟨true, "adm"⟩, [(⟨true, "z"⟩, 0), (⟨true, "a"⟩, 2), (⟨true, "b"⟩, 3)]⟩) (h0 := 5) (s0 := Ex.group0) rfl
+  exact ⟨h.1.logLe (CwPlus.Snapshot.SnapMap.logLe_empty 5) (Nat.le_refl _),
+    h.2.logLe (CwPlus.Snapshot.Cell.logLe_empty 5) (Nat.le_refl _)⟩
+
+open CwPlus.Props.C06Flex in
+/-- the history `Ex.opsJ` is a `ReachableSnap` history (group instantiated at height 5, blocks 10 … 16) -/
+theorem exJ_reachableSnap : ReachableSnap CwPlus.Props.C15.Cex.noExt 10 Ex.finalJ ⟨16, 0⟩ := by
+  have h0 : ReachableSnap CwPlus.Props.C15.Cex.noExt 10 Ex.world0 ⟨10, 0⟩ :=
+    ReachableSnap.init (m := Ex.inst) Ex.group0 CwPlus.Props.C15.Cex.token0 [] "ms" "grp" "tok" 5 ⟨10, 0⟩ rfl
+      Ex.group0_inv Ex.group0_logLe.1 Ex.group0_logLe.2 (by decide)
+  have h1 := ReachableSnap.step ⟨⟨10, 0⟩, .flex "b" [] (.propose "t" "d" [] none)⟩ h0 ⟨Nat.le_refl _, Nat.le_refl _⟩
+  have h2 := ReachableSnap.step ⟨⟨11, 0⟩, .flex "a" [] (.vote 1 .no)⟩ h1 ⟨by decide, by decide⟩
+  have h3 := ReachableSnap.step ⟨⟨11, 0⟩, .flex "a" [] (.propose "t2" "d" [] none)⟩ h2 ⟨Nat.le_refl _, Nat.le_refl _⟩
+  have h4 := ReachableSnap.step ⟨⟨12, 0⟩, .flex "b" [] (.vote 2 .no)⟩ h3 ⟨by decide, by decide⟩
+  exact ReachableSnap.step ⟨⟨16, 0⟩, .flex "x" [] (.close 2)⟩ h4 ⟨by decide, by decide⟩
+
+/-- the guard holds for both proposals of `Ex.finalJ` (started at heights 10 and 11; no group write after height 5);
+it fails for the proposal of the counterexample history `CexJ` below -/
+example : CleanStart Ex.finalJ.log 1 10 ∧ CleanStart Ex.finalJ.log 2 11 := by decide
+
+open CwPlus.Props.C06Flex in
+/-- `passed_justified_reachable` and `rejected_justified_reachable` applied to `Ex.finalJ`: proposal 1 (stored Passed,
+with a later No) and proposal 2 (stored Rejected) are justified by their recorded ballots at block 16 — no premise
+to check by hand. -/
+example : (∀ p, Ex.finalJ.flex.core.proposals.get? 1 = some p → p.status = .passed → p.startHeight = 10 →
+      Outcome p (ballotsOf Ex.finalJ.flex.core 1) ⟨16, 0⟩ = .ok .passed) ∧
+    (∀ p, Ex.finalJ.flex.core.proposals.get? 2 = some p → p.status = .rejected → p.startHeight = 11 →
+      Outcome p (ballotsOf Ex.finalJ.flex.core 2) ⟨16, 0⟩ = .ok .rejected) :=
+  ⟨fun p hp hs hh => passed_justified_reachable exJ_reachableSnap hp hs (by rw [hh]; decide) (later_refl_blk _),
+   fun p hp hs hh => (rejected_justified_reachable exJ_reachableSnap hp hs (by rw [hh]; decide) (later_refl_blk _)).1⟩
+
+example : ((Ex.finalJ.flex.core.proposals.get? 1).map fun p => (p.status, p.startHeight)) = some (.passed, 10) ∧
+    ((Ex.finalJ.flex.core.proposals.get? 2).map fun p => (p.status, p.startHeight)) = some (.rejected, 11) := by decide
+
+/-- non-vacuity of `execute_ok_implies_exact_threshold_reachable` and of the `…_inv` forms: in `Ex.finalJ` (a
+`ReachableSnap` world whose state satisfies `Inv` and `YesInv`) Execute of proposal 1 succeeds at block 16, Close is
+refused -/
+example : (Cw3Flex.execute Ex.finalJ.flex Ex.finalJ.group "ms" ⟨16, 0⟩ "x" [] (.execute 1)).isOk = true ∧
+    (Cw3Flex.execute Ex.finalJ.flex Ex.finalJ.group "ms" ⟨16, 0⟩ "x" [] (.close 1)).isOk = false ∧
+    Inv Ex.finalJ.flex ∧ YesInv Ex.finalJ.flex :=
+  ⟨by decide, by decide, reachable_inv exJ_reachableSnap.reachableAt.reachable,
+    reachable_yes exJ_reachableSnap.reachableAt.reachable⟩
+
 /-! ### without the premise the sticky-status statements are FALSE of the code (consequence of D3) -/
 
 namespace CexJ
@@ -420,5 +688,21 @@ theorem passed_justified_counterexample :
     ((Cw3Flex.queryProposal CexJ.final.flex ⟨15, 0⟩ 1).toOption.map (·.status)) = some .passed ∧
     (Cw3Flex.execute CexJ.final.flex CexJ.final.group "ms" ⟨15, 0⟩ "x" [] (.execute 1)).isOk = true := by
   decide
+
+/-- non-vacuity of `listed_status_eq_outcome`: the listing of the reachable world `Ex.finalJ` answers (every stored
+proposal fits `u64`, so it has a status at every block: `reachable_statusInv`) -/
+example : ∃ vs, Cw3Flex.listProposals Ex.finalJ.flex ⟨16, 0⟩ none none = .ok vs := by
+  have hr := exJ_reachableSnap.reachableAt.reachable
+  have hfit : ∀ x ∈ Ex.finalJ.flex.core.proposals,
+      x.2.votes.yes + x.2.votes.no + x.2.votes.abstain + x.2.votes.veto ≤ U64_MAX := by decide
+  refine ⟨_, viewAll_eq_map (fun x hx => ?_)⟩
+  have hm : x ∈ Ex.finalJ.flex.core.proposals :=
+    Paginate.mem_sortedEntries.mp ((Paginate.page_sublist _ _ _ _).subset hx)
+  have hp := AMap.get?_of_mem_nodup (Cw3Flex.reachable_nodup hr) hm
+  exact reachable_statusInv hr x.1 x.2 hp (hfit x hm) _
+
+/-- … and the guard of the `…_reachable` corollaries is what excludes this history: a group write in block 10 precedes
+the `Propose` of proposal 1 (start height 10). -/
+example : ¬ CleanStart CexJ.final.log 1 10 := by decide
 
 end CwPlus.Props.C03Flex
